@@ -16,6 +16,13 @@ PUp == P12 \cup PCls \cup { <<"/", "A", "/", "LOW">>, <<"/", "A", "/", "b">>, <<
 PNa == { <<"/", "~e~", "/", "a">>, <<"/", "~e~", "/", "b">>, <<"/", "~e~", "/", "LOW">>, <<"/", "ELW", "/", "a">>, <<"/", "ELW", "/", "b">>, <<"/", "a">> }
 ProbesNa == { <<>>, <<"/", "~e~", "/", "a">>, <<"/", "~e~", "/", "b">>, <<"/", "~e~", "/", "a", "b">>, <<"/", "~e~", "/">>, <<"/", "~e~", "a", "/", "a">>,
               <<"/", "~e~", "b", "a", "/", "b">>, <<"/", "a">>, <<"/", "~e~", "/", "A">>, <<"/", "e", "/", "a">>, <<"/", "~e~", "a", "/", "a", "/">> }
+\* case-insensitive trees emptied and refilled (the case flag must survive every way of emptying)
+PCase == { <<"/", "A", "/", "LOW">>, <<"/", "a", "/", "b">>, <<"/", "A", "/", "b">>, <<"/", "a">> }
+ProbesCase == { <<>>, <<"/", "a">>, <<"/", "A">>, <<"/", "a", "/", "b">>, <<"/", "A", "/", "B">>, <<"/", "a", "/", "a", "b">>, <<"/", "A", "/", "A">>, <<"/", "a", "/", "B">> }
+\* sibling subtrees that accept the same string: /a/LOW/{a,b} next to /a/b/{a,AS}
+PSib == { <<"/", "a", "/", "LOW", "/", "a">>, <<"/", "a", "/", "LOW", "/", "b">>, <<"/", "a", "/", "b", "/", "a">>, <<"/", "a", "/", "b", "/", "AS">>, <<"/", "a", "/", "b">> }
+ProbesSib == { <<>>, <<"/", "a", "/", "b", "/", "a">>, <<"/", "a", "/", "b", "/", "b">>, <<"/", "a", "/", "a", "/", "a">>, <<"/", "a", "/", "b">>, <<"/", "a", "/", "b", "/", "a", "a">>,
+               <<"/", "a", "/", "a", "b", "/", "b">>, <<"/", "a", "/", "b", "/">> }
 RECURSIVE Strs(_,_)
 Strs(n, A) == IF n = 0 THEN {<<>>} ELSE LET S == Strs(n - 1, A) IN S \cup {Append(s, c) : s \in {x \in S : Len(x) = n - 1}, c \in A}
 H4 == Strs(4, {"a", "b", "/", "."})
